@@ -63,6 +63,13 @@ pub fn scripts() -> Vec<Script> {
             ops: vec![SOp::Inst(0)],
         },
         Script {
+            // fixed by b1f6b94: TypeEncoder::borrow asserted a nested scope and panicked at the root
+            name: "root-level-function-borrows-imported-resource",
+            libs: vec![LIB_PLAIN],
+            comps: vec![("test:a", "package test:a;\nworld w { resource r; import f: func(x: borrow<r>) -> r; import g: func(y: list<borrow<r>>); }\n")],
+            ops: vec![SOp::Inst(0)],
+        },
+        Script {
             name: "explicit-import-merged",
             libs: vec![LIB_PLAIN],
             comps: vec![("test:a", "package test:a;\nworld w { import ns:lib/i1; }\n")],
